@@ -246,6 +246,9 @@ func (v ElemPtrV) shape() string { return "elem:" + v.Sl.shape() }
 // ---------------------------------------------------------------- element access
 
 func (ex *Exec) sliceArr(st *State, sl SliceV, k int, sort string) *Term {
+	if sl.Snap != nil && k == 0 {
+		return sl.Snap
+	}
 	switch sl.St {
 	case StDyn:
 		m := st.get(bmemName(sl.Elem, k), SArr(SRef, SArr(SBV(64), sort)))
